@@ -67,6 +67,16 @@ class VChar(V):
         self.e = e
 
 
+class VOpaque(V):
+    """a value of an abstract sort (e.g. a hash as a term of an algebraic datatype): only copied and compared"""
+
+    def __init__(self, e):
+        self.e = e
+
+    def __repr__(self):
+        return "VOpaque(%s)" % self.e
+
+
 class VUnit(V):
     def __repr__(self):
         return "()"
@@ -124,6 +134,20 @@ class VIter(V):
 
 class VUninit(V):
     pass
+
+
+class VPyFn(V):
+    """a callable supplied by the property module (e.g. the progress callback): fn(I, args, pc) -> V"""
+
+    def __init__(self, fn):
+        self.fn = fn
+
+
+class Effects:
+    """result of a stub/model that also updates its receiver and/or `&mut` arguments"""
+
+    def __init__(self, ret, recv=None, args=None):
+        self.ret, self.recv, self.args = ret, recv, args or {}
 
 
 class VCount(V):
@@ -192,6 +216,8 @@ def ite(c, a, b):
         return b
     if isinstance(b, VUninit):
         return a
+    if not (z3.is_true(c) or z3.is_false(c)):
+        c = z3.simplify(c)
     if z3.is_true(c):
         return a
     if z3.is_false(c):
@@ -206,6 +232,8 @@ def ite(c, a, b):
         return VBool(z3.If(c, a.e, b.e))
     if isinstance(a, VUnit) and isinstance(b, VUnit):
         return a
+    if isinstance(a, VOpaque) and isinstance(b, VOpaque):
+        return VOpaque(z3.If(c, a.e, b.e))
     if isinstance(a, VEnum) and isinstance(b, VEnum) and a.ty == b.ty:
         pl = {}
         for k in set(a.payload) | set(b.payload):
@@ -263,6 +291,8 @@ def veq(a, b):
         return a.e == b.e
     if isinstance(a, VUnit) and isinstance(b, VUnit):
         return z3.BoolVal(True)
+    if isinstance(a, VOpaque) and isinstance(b, VOpaque):
+        return a.e == b.e
     if isinstance(a, VEnum) and isinstance(b, VEnum) and a.ty == b.ty:
         conds = [a.tag == b.tag]
         for k in set(a.payload) & set(b.payload):
@@ -299,6 +329,10 @@ class Interp:
         self.parse_models = {}  # type name -> model(I, VStr, pc) for str::parse::<T>()
         self.events = []  # (guard, tag, payload) recorded by stubs (e.g. "request reached the transport")
         self.self_ty = []
+        self.loops = []
+        self.loop_bound = 16
+        self.buffer_cap = 8
+        self.cfg_values = {}
         self.fns_executed = set()
         self.depth = 0
 
@@ -561,6 +595,8 @@ class Interp:
         if t == "u8":
             return VChar(b8(e["value"])), env, pc
         if t == "int":
+            if e.get("suffix") == "u8":
+                return VChar(b8(int(e["value"]))), env, pc
             return VInt(int(e["value"])), env, pc
         if t == "bool":
             return VBool(e["value"]), env, pc
@@ -615,6 +651,11 @@ class Interp:
             if pc2 is not sub_pc and not z3.eq(z3.simplify(pc2), z3.simplify(sub_pc)):
                 raise Unsupported("control flow inside && operand: %s vs %s" % (z3.simplify(pc2), z3.simplify(sub_pc)))
             return VBool(z3.And(l.e, r.e) if op == "&&" else z3.Or(l.e, r.e)), env, pc
+        if op in ("+=", "-=", "*=", "/=", "%=", "|=", "&="):
+            sub = dict(e)
+            sub["op"] = op[:-1]
+            v, env, pc = self.e_binary(sub, env, pc)
+            return self.assign_to(e["l"], v, env, pc)
         l, env, pc = self.eval(e["l"], env, pc)
         r, env, pc = self.eval(e["r"], env, pc)
         if op == "==":
@@ -639,6 +680,21 @@ class Interp:
             if op == "*":
                 self.panic(z3.And(pc, z3.Not(z3.BVMulNoOverflow(l.e, r.e, False))), "attempt to multiply with overflow at line %s" % e.get("line"))
                 return VInt(l.e * r.e), env, pc
+            if op in ("/", "%"):
+                self.panic(z3.And(pc, r.e == bv(0)), "division by zero at line %s" % e.get("line"))
+                return VInt(z3.UDiv(l.e, r.e) if op == "/" else z3.URem(l.e, r.e)), env, pc
+            if op == "&":
+                return VInt(l.e & r.e), env, pc
+            if op == "|":
+                return VInt(l.e | r.e), env, pc
+            if op == "<<":
+                return VInt(l.e << r.e), env, pc
+            if op == ">>":
+                return VInt(z3.LShR(l.e, r.e)), env, pc
+        if isinstance(l, VBool) and isinstance(r, VBool) and op in ("&", "|", "^"):
+            return VBool({"&": z3.And, "|": z3.Or, "^": z3.Xor}[op](l.e, r.e)), env, pc
+        if isinstance(l, VInt) and isinstance(r, VInt):
+            pass
         if isinstance(l, VChar) and isinstance(r, VChar) and op in ("<", "<=", ">", ">="):
             a, b = l.e, r.e
             return VBool({"<": ult(a, b), "<=": ule(a, b), ">": ugt(a, b), ">=": uge(a, b)}[op]), env, pc
@@ -741,6 +797,8 @@ class Interp:
             c, binds = self.match_pat(a["pat"], sv)
             enva = dict(env)
             enva.update(binds)
+            if z3.is_false(z3.simplify(z3.And(remaining, c))):
+                continue
             if a["guard"] is not None:
                 gv, _, _ = self.eval(a["guard"], enva, z3.And(pc, remaining, c))
                 c = z3.And(c, gv.e)
@@ -793,12 +851,32 @@ class Interp:
 
     def e_assign(self, e, env, pc):
         v, env, pc = self.eval(e["r"], env, pc)
-        l = e["l"]
-        if l["k"] != "path" or l["path"] not in env:
-            raise Unsupported("assignment target")
-        env = dict(env)
-        env[l["path"]] = v
-        return VUnit(), env, pc
+        return self.assign_to(e["l"], v, env, pc)
+
+    def assign_to(self, l, v, env, pc):
+        """assignment to a variable, a field of a variable, or an element of a vector variable"""
+        if l["k"] == "path" and l["path"] in env:
+            env = dict(env)
+            env[l["path"]] = v
+            return VUnit(), env, pc
+        if l["k"] == "field":
+            base, env, pc = self.eval(l["base"], env, pc)
+            if not isinstance(base, VStruct):
+                raise Unsupported("field assignment on " + type(base).__name__)
+            nb = VStruct(base.name, dict(base.fields))
+            nb.fields[l["member"]] = v
+            return self.assign_to(l["base"], nb, env, pc)
+        if l["k"] == "index":
+            base, env, pc = self.eval(l["base"], env, pc)
+            iv, env, pc = self.eval(l["index"], env, pc)
+            if not isinstance(base, VVec) or not isinstance(iv, VInt):
+                raise Unsupported("index assignment form")
+            self.panic(z3.And(pc, z3.Not(ult(iv.e, base.n))), "index out of bounds at line %s" % l.get("line"))
+            items = [ite(iv.e == bv(i), v, x) for i, x in enumerate(base.items)]
+            return self.assign_to(l["base"], VVec(items, base.n), env, pc)
+        if l["k"] == "unary" and l["op"] == "*":
+            return self.assign_to(l["expr"], v, env, pc)
+        raise Unsupported("assignment target")
 
     def e_closure(self, e, env, pc):
         return VClosure(e["params"], e["body"], dict(env)), env, pc
@@ -806,8 +884,10 @@ class Interp:
     def e_cast(self, e, env, pc):
         v, env, pc = self.eval(e["expr"], env, pc)
         ty = e["ty"].replace(" ", "")
-        if isinstance(v, VInt) and ty in ("usize", "u64", "u32"):
+        if isinstance(v, VInt) and ty in ("usize", "u64"):
             return v, env, pc
+        if isinstance(v, VInt) and ty == "u32":
+            return VInt(z3.ZeroExt(32, z3.Extract(31, 0, v.e))), env, pc
         raise Unsupported("cast to " + ty)
 
     def e_index(self, e, env, pc):
@@ -1002,9 +1082,17 @@ class Interp:
                 return err(args[0]), env, pc
             if p in env and isinstance(env[p], VClosure):
                 return self.call_closure(env[p], args, pc), env, pc
-            if p in self.overrides or last in self.overrides:
-                self.models_used.add("stub:" + last)
-                return (self.overrides.get(p) or self.overrides[last])(self, args, pc), env, pc
+            if p in env and isinstance(env[p], VPyFn):
+                return env[p].fn(self, args, pc), env, pc
+            two_ = "::".join(p.split("::")[-2:])
+            if p in self.overrides or two_ in self.overrides or last in self.overrides:
+                self.models_used.add("stub:" + two_)
+                r = (self.overrides.get(p) or self.overrides.get(two_) or self.overrides[last])(self, args, pc)
+                if isinstance(r, Effects):
+                    for i, nv in r.args.items():
+                        _, env, pc = self.assign_to(strip_ref(e["args"][i]), nv, env, pc)
+                    r = r.ret
+                return r, env, pc
             if p in self.fns:
                 return self.call(p, args, pc), env, pc
             if p.startswith("Self::") and self.self_ty and self.self_ty[-1] and (self.self_ty[-1] + "::" + last) in self.fns:
@@ -1021,6 +1109,9 @@ class Interp:
             if "::" in p and last[:1].isupper():
                 ty = p.split("::")[-2]
                 return VEnum(ty, TAG(ty, last), {last: args}), env, pc
+            if "::" not in p and p[:1].isupper():
+                # tuple-struct constructor, e.g. MerkleNode(bytes)
+                return VStruct(p, {str(i): a for i, a in enumerate(args)}), env, pc
             raise Unsupported("call to unknown function %s (line %s)" % (p, e.get("line")))
         raise Unsupported("call of non-path expression")
 
@@ -1046,7 +1137,14 @@ class Interp:
             key = "%s::%s" % (recv.name, name)
             if key in self.overrides:
                 self.models_used.add("stub:" + key)
-                return self.overrides[key](self, [recv] + args, pc), env, pc
+                r = self.overrides[key](self, [recv] + args, pc)
+                if isinstance(r, Effects):
+                    if r.recv is not None:
+                        _, env, pc = self.assign_to(strip_ref(recv_ast), r.recv, env, pc)
+                    for i, nv in r.args.items():
+                        _, env, pc = self.assign_to(strip_ref(e["args"][i - 1]), nv, env, pc)
+                    r = r.ret
+                return r, env, pc
             if key in self.fns:
                 return self.call(key, [recv] + args, pc), env, pc
         # mutating String methods update the receiver variable
@@ -1070,7 +1168,52 @@ class Interp:
         if m is None:
             raise Unsupported("method %s on %s (line %s)" % (name, key[0], e.get("line")))
         self.models_used.add("%s::%s" % (key[0], name))
-        return m(self, recv, args, pc, e), env, pc
+        r = m(self, recv, args, pc, e)
+        if isinstance(r, Effects):
+            if r.recv is not None:
+                _, env, pc = self.assign_to(strip_ref(recv_ast), r.recv, env, pc)
+            r = r.ret
+        return r, env, pc
+
+    # ---- loops: bounded unrolling with break/continue collected as (guard, env) states -------------
+    def merge_states(self, states, env0):
+        """states: [(pc, env)] with pairwise disjoint pcs -> (env, pc)"""
+        live = [(z3.simplify(g), en) for g, en in states]
+        live = [(g, en) for g, en in live if not z3.is_false(g)]
+        if not live:
+            return dict(env0), z3.BoolVal(False)
+        g0, out = live[-1]
+        out = {n: out.get(n, env0[n]) for n in env0}
+        pc = g0
+        for g, en in reversed(live[:-1]):
+            out = {n: ite(g, en.get(n, env0[n]), out[n]) for n in env0}
+            pc = z3.Or(g, pc)
+        return out, z3.simplify(pc)
+
+    def run_loop_body(self, body, envb, pc_body, env0):
+        """-> (env_after_iteration, pc_continue_loop, exit_states) ; exit_states from `break`"""
+        ctx = {"brk": [], "cont": []}
+        self.loops.append(ctx)
+        try:
+            _, envb2, pcb = self.exec_block(body, envb, pc_body, {})
+        finally:
+            self.loops.pop()
+        nxt_env, nxt_pc = self.merge_states([(pcb, envb2)] + ctx["cont"], env0)
+        return nxt_env, nxt_pc, ctx["brk"]
+
+    def e_break(self, e, env, pc):
+        if e.get("expr") is not None:
+            raise Unsupported("break with value")
+        if not self.loops:
+            raise Unsupported("break outside loop")
+        self.loops[-1]["brk"].append((pc, dict(env)))
+        return VUnit(), env, z3.BoolVal(False)
+
+    def e_continue(self, e, env, pc):
+        if not self.loops:
+            raise Unsupported("continue outside loop")
+        self.loops[-1]["cont"].append((pc, dict(env)))
+        return VUnit(), env, z3.BoolVal(False)
 
     def e_for(self, e, env, pc):
         it, env, pc = self.eval(e["iter"], env, pc)
@@ -1078,21 +1221,58 @@ class Interp:
             it = it.vec
         if not isinstance(it, VVec):
             raise Unsupported("for over " + type(it).__name__)
+        exits = []
         for i, item in enumerate(it.items):
-            active = z3.simplify(z3.And(pc, ugt(it.n, bv(i))))
+            has = ugt(it.n, bv(i))
+            active = z3.simplify(z3.And(pc, has))
+            exits.append((z3.And(pc, z3.Not(has)), env))
             if z3.is_false(active):
+                pc = z3.BoolVal(False)
                 break
             c, binds = self.match_pat(e["pat"], item)
             envb = dict(env)
             envb.update(binds)
-            _, envb2, pcb = self.exec_block(e["body"], envb, active)
-            inactive = z3.And(pc, z3.Not(ugt(it.n, bv(i))))
-            newenv = {}
-            for n in env:
-                newenv[n] = ite(ugt(it.n, bv(i)), envb2.get(n, env[n]), env[n]) if not z3.is_false(z3.simplify(pcb)) else env[n]
-            env = newenv
-            pc = z3.simplify(z3.Or(pcb, inactive))
-        return VUnit(), env, pc
+            env_n, pc_n, brk = self.run_loop_body(e["body"], envb, active, env)
+            exits.extend(brk)
+            env, pc = {n: env_n.get(n, env[n]) for n in env}, pc_n
+        else:
+            exits.append((pc, env))
+            pc = z3.BoolVal(False)
+        out, pco = self.merge_states(exits, env)
+        return VUnit(), out, pco
+
+    def e_while(self, e, env, pc):
+        return self._loop(e, env, pc, e["cond"])
+
+    def e_loop(self, e, env, pc):
+        return self._loop(e, env, pc, None)
+
+    def _loop(self, e, env, pc, cond):
+        exits = []
+        bound = self.loop_bound
+        for it in range(bound + 1):
+            if z3.is_false(z3.simplify(pc)):
+                break
+            if cond is not None:
+                if cond["k"] == "let_cond":
+                    raise Unsupported("while let")
+                cv, env, pc = self.eval(cond, env, pc)
+                exits.append((z3.And(pc, z3.Not(cv.e)), env))
+                pc_body = z3.simplify(z3.And(pc, cv.e))
+            else:
+                pc_body = pc
+            if z3.is_false(z3.simplify(pc_body)):
+                pc = z3.BoolVal(False)
+                break
+            if it == bound:
+                self.unwind(pc_body, "loop at line %s needs more than %d iterations" % (e.get("line"), bound))
+                pc = z3.BoolVal(False)
+                break
+            env_n, pc_n, brk = self.run_loop_body(e["body"], dict(env), pc_body, env)
+            exits.extend(brk)
+            env, pc = {n: env_n.get(n, env[n]) for n in env}, pc_n
+        out, pco = self.merge_states(exits, env)
+        return VUnit(), out, pco
 
     def e_matches(self, e, env, pc):
         v, env, pc = self.eval(e["scrut"], env, pc)
@@ -1110,18 +1290,43 @@ class Interp:
             lo, env, pc = self.eval(e["lo"], env, pc)
         if e["hi"] is not None:
             hi, env, pc = self.eval(e["hi"], env, pc)
-        if lo is None or hi is None or cval(lo.e) is None or cval(hi.e) is None:
-            raise Unsupported("range with non-constant bounds")
+        if lo is not None and hi is not None and (cval(lo.e) is None or cval(hi.e) is None):
+            if not e["inclusive"]:
+                raise Unsupported("half-open range with symbolic bounds")
+            return VStruct("RangeInclusive", {"start": lo, "end": hi}), env, pc
+        if lo is None or hi is None:
+            raise Unsupported("open range")
         a, b = cval(lo.e), cval(hi.e) + (1 if e["inclusive"] else 0)
         if b - a > 64:
             raise Unsupported("range longer than 64")
         return VVec([VInt(i) for i in range(a, b)]), env, pc
+
+    def e_vec_repeat(self, e, env, pc):
+        el, env, pc = self.eval(e["elem"], env, pc)
+        n, env, pc = self.eval(e["len"], env, pc)
+        if isinstance(el, VChar):
+            # vec![0u8; n]: a byte buffer of symbolic length (capacity = buffer_cap)
+            self.unwind(z3.And(pc, ugt(n.e, bv(self.buffer_cap))), "vec![_; n] longer than %d (line %s)" % (self.buffer_cap, e.get("line")))
+            return VStr(BStr([el.e] * self.buffer_cap, n.e)), env, pc
+        raise Unsupported("vec![elem; n] of non-bytes")
+
+    def e_cfg_macro(self, e, env, pc):
+        txt = e["text"].replace(" ", "")
+        if txt not in self.cfg_values:
+            raise Unsupported("cfg!(%s) without a configured value" % txt)
+        return VBool(self.cfg_values[txt]), env, pc
 
     def e_unsupported(self, e, env, pc):
         raise Unsupported("syntax not handled by astdump: " + e.get("text", "")[:80])
 
     def e_let_cond(self, e, env, pc):
         raise Unsupported("let in expression position")
+
+
+def strip_ref(ast):
+    while ast["k"] in ("ref",) or (ast["k"] == "unary" and ast["op"] == "*"):
+        ast = ast["expr"]
+    return ast
 
 
 def vec_push(vec, item):
@@ -1308,6 +1513,107 @@ def m_vec_get(I, v, args, pc, e):
     return opt(ult(idx, v.n), I.vec_get(v, idx))
 
 
+def m_step_by(I, v, args, pc, e):
+    k = cval(args[0].e)
+    n = cval(v.n)
+    if k is None or n is None or k == 0:
+        raise Unsupported("step_by with symbolic length/step")
+    items = v.items[:n][::k]
+    return VIter(VVec(items))
+
+
+def _ordering(lt, eq_):
+    for nm in ("Less", "Equal", "Greater"):
+        TAG("Ordering", nm)
+    return VEnum("Ordering", z3.If(lt, TAG("Ordering", "Less"), z3.If(eq_, TAG("Ordering", "Equal"), TAG("Ordering", "Greater"))), {})
+
+
+def m_int_cmp(I, a, args, pc, e):
+    return _ordering(ult(a.e, args[0].e), a.e == args[0].e)
+
+
+def m_checked_add(I, a, args, pc, e):
+    b = args[0]
+    return opt(z3.BVAddNoOverflow(a.e, b.e, False), VInt(a.e + b.e))
+
+
+def m_checked_sub(I, a, args, pc, e):
+    b = args[0]
+    return opt(uge(a.e, b.e), VInt(a.e - b.e))
+
+
+def m_div_ceil(I, a, args, pc, e):
+    b = args[0]
+    I.panic(z3.And(pc, b.e == bv(0)), "division by zero at line %s" % e.get("line"))
+    q = z3.UDiv(a.e, b.e)
+    return VInt(z3.If(z3.URem(a.e, b.e) == bv(0), q, q + bv(1)))
+
+
+def m_to_be_bytes(I, a, args, pc, e):
+    return VStr(BStr([z3.Extract(63 - 8 * i, 56 - 8 * i, a.e) for i in range(8)], bv(8)))
+
+
+def _sort_items(I, v, less, pc):
+    """stable insertion sort of a vector with CONCRETE length using compare(a, b) -> z3 Bool 'a must come after b'"""
+    n = cval(v.n)
+    if n is None:
+        raise Unsupported("sort of a vector with symbolic length")
+    items = list(v.items[:n])
+    for i in range(1, n):
+        for j in range(i, 0, -1):
+            swap = less(items[j], items[j - 1])  # items[j] < items[j-1]  => move it left
+            a, b = items[j - 1], items[j]
+            items[j - 1], items[j] = ite(swap, b, a), ite(swap, a, b)
+    return VVec(items)
+
+
+def m_sort_by_key(I, v, args, pc, e):
+    clo = args[0]
+    def less(x, y):
+        kx, ky = I.call_closure(clo, [x], pc), I.call_closure(clo, [y], pc)
+        return ult(kx.e, ky.e)
+    return Effects(VUnit(), recv=_sort_items(I, v, less, pc))
+
+
+def m_sort_by(I, v, args, pc, e):
+    clo = args[0]
+    def less(x, y):
+        o = I.call_closure(clo, [x, y], pc)
+        return o.tag == TAG("Ordering", "Less")
+    return Effects(VUnit(), recv=_sort_items(I, v, less, pc))
+
+
+def m_sort(I, v, args, pc, e):
+    return Effects(VUnit(), recv=_sort_items(I, v, lambda x, y: ult(x.e, y.e), pc))
+
+
+def m_vec_contains(I, v, args, pc, e):
+    x = args[0]
+    return VBool(z3.Or([z3.And(ult(bv(i), v.n), veq(it, x)) for i, it in enumerate(v.items)] or [z3.BoolVal(False)]))
+
+
+def m_iter_map(I, it, args, pc, e):
+    vec = it.vec
+    out = []
+    for i, x in enumerate(vec.items):
+        g = z3.And(pc, ugt(vec.n, bv(i)))
+        if z3.is_false(z3.simplify(g)):
+            out.append(VUninit())
+            continue
+        out.append(I.call_closure(args[0], [x], g))
+    return VIter(VVec(out, vec.n))
+
+
+def m_iter_sum(I, it, args, pc, e):
+    vec = it.vec
+    acc = bv(0)
+    for i, x in enumerate(vec.items):
+        if isinstance(x, VUninit):
+            continue
+        acc = acc + z3.If(ugt(vec.n, bv(i)), x.e, bv(0))
+    return VInt(acc)
+
+
 def m_vec_is_empty(I, v, args, pc, e):
     return VBool(v.n == bv(0))
 
@@ -1488,17 +1794,53 @@ METHODS = {
     ("Option", "ok_or_else"): m_opt_ok_or_else,
     ("Option", "ok_or"): m_opt_ok_or_else,
     ("Result", "map"): m_res_map,
+    ("Result", "unwrap_or_default"): lambda I, r, a, pc, e: (r.payload.get("Ok") or [VUnit()])[0],
     ("Result", "ok"): m_res_ok,
     ("Result", "map_err"): lambda I, r, a, pc, e: VEnum("Result", r.tag, {"Ok": r.payload.get("Ok", [VUninit()]), "Err": [VUnit()]}),
     ("Result", "is_ok"): m_res_is_ok,
     ("Result", "is_err"): m_res_is_err,
     ("Result", "unwrap"): m_opt_unwrap,
+    ("VOpaque", "clone"): m_ident,
+    ("VOpaque", "to_vec"): m_ident,
+    ("VOpaque", "to_owned"): m_ident,
+    ("VOpaque", "as_ref"): m_ident,
+    ("VVec", "to_vec"): m_ident,
+    ("VVec", "clone"): m_ident,
+    ("VVec", "step_by"): m_step_by,
+    ("VIter", "step_by"): lambda I, it, a, pc, e: m_step_by(I, it.vec, a, pc, e),
     ("VInt", "clone"): m_ident,
+    ("VInt", "into"): m_ident,
+    ("VInt", "get"): m_ident,
+    ("VInt", "cmp"): m_int_cmp,
+    ("VInt", "max"): lambda I, a, args, pc, e: VInt(z3.If(uge(a.e, args[0].e), a.e, args[0].e)),
+    ("VInt", "min"): lambda I, a, args, pc, e: VInt(z3.If(ule(a.e, args[0].e), a.e, args[0].e)),
+    ("VInt", "checked_add"): m_checked_add,
+    ("VInt", "checked_sub"): m_checked_sub,
+    ("VInt", "div_ceil"): m_div_ceil,
+    ("VInt", "to_be_bytes"): m_to_be_bytes,
+    ("VVec", "sort_by_key"): m_sort_by_key,
+    ("VVec", "sort_by"): m_sort_by,
+    ("VVec", "sort"): m_sort,
+    ("VVec", "contains"): m_vec_contains,
+    ("VIter", "map"): m_iter_map,
+    ("VIter", "sum"): m_iter_sum,
     ("VBool", "clone"): m_ident,
     ("VStruct", "clone"): m_ident,
 }
 
+def _min(I, a, pc):
+    return VInt(z3.If(ule(a[0].e, a[1].e), a[0].e, a[1].e))
+
+
+def _max(I, a, pc):
+    return VInt(z3.If(uge(a[0].e, a[1].e), a[0].e, a[1].e))
+
+
 LIB_FUNCS = {
+    "std::cmp::min": _min,
+    "cmp::min": _min,
+    "std::cmp::max": _max,
+    "cmp::max": _max,
     "String::new": lambda I, a, pc: VStr(S("")),
     "String::from": lambda I, a, pc: a[0],
     "Vec::new": lambda I, a, pc: VVec([]),
@@ -1534,6 +1876,8 @@ def concrete(v, model=None):
         raise Unsupported("not concrete: %s" % x)
     if isinstance(v, VUnit):
         return None
+    if isinstance(v, VOpaque):
+        return str(ev(v.e))
     if isinstance(v, VEnum):
         t = ev(v.tag)
         if not z3.is_bv_value(t):
